@@ -189,8 +189,8 @@ def install_collections(eng, rec=None):
         rec['parry'].append(dict(q='distance', args=args, res=d)); return one(st, Ok(F(d)))
     M(r'^parry3d::query::distance$', dist)
     M(r'^parry3d::shape::TriMesh::vertices$', lambda e, st, fr, f, a, m: one(st, Opaque('verts', D(st, a[0]).name)))
-    M(r'^parry3d::shape::TriMesh::local_aabb$', lambda e, st, fr, f, a, m: one(st, Opaque('aabb', D(st, a[0]).name)))
-    M(r'BoundingVolume>::loosened$', lambda e, st, fr, f, a, m: one(st, Opaque('aabb', D(st, a[0]).name, data=('loosened', a[1]))))
+    M(r'^parry3d::shape::TriMesh::local_aabb$', lambda e, st, fr, f, a, m: one(st, Opaque('aabb', D(st, a[0]).name, data=('of', D(st, a[0])))))
+    M(r'BoundingVolume>::loosened$', lambda e, st, fr, f, a, m: one(st, Opaque('aabb', D(st, a[0]).name, data=('loosened', a[1], D(st, a[0])))))
     def vlen_opaque(e, st, fr, f, a, m):
         v = D(st, a[0])
         if isinstance(v, Opaque) and v.kind == 'verts': return one(st, z3.Int(f'nverts_{v.name}'))
